@@ -275,7 +275,7 @@ def register_namesakes(ctx):
     ctx.count("shortcut-names-registered-as-functions-with-a-processor", 4)
 
 
-HALF_BUILT = ["len(a)", "f(a)", "Sum(Select(a, g))", "Count(a.jets) + Max(b)", "Select(ds, lambda e: Min(e.jets.Select(lambda j: j.pt)))", "g(len(a), k=Count(b))", "a.Count()", "Sum(f(a))"]
+HALF_BUILT = ["len(a)", "f(a)", "Sum(Select(a, g))", "Count(a.jets) + Max(b)", "Select(ds, lambda e: Min(e.jets.Select(lambda j: j.pt)))", "g(len(a), k=Count(b))", "a.Count()", "Sum(f(a))", "g() + len(h())", "Select(a, lambda x: x.m()).Count()"]
 
 
 def half_built(ctx):
